@@ -3,6 +3,7 @@ import Flowdyn.Exec.Int
 import Flowdyn.Exec.Kern
 import Flowdyn.Exec.Fvm
 import Flowdyn.Exec.Drv
+import Flowdyn.Exec.Fvm2
 
 namespace Flowdyn.Exec
 
@@ -16,6 +17,8 @@ def dispatch (line : String) : String :=
   | "rhs1d" :: args => (handleRhs args).getD "bad-op"
   | "istep" :: args => (handleIStep args).getD "bad-op"
   | "drv" :: args => (handleDrv args).getD "bad-op"
+  | "mesh2d" :: args => (handleMesh2 args).getD "bad-op"
+  | "rhs2d" :: args => (handleRhs2 args).getD "bad-op"
   | _ => "bad-op"
 
 partial def loop (h : IO.FS.Stream) (out : IO.FS.Stream) : IO Unit := do
